@@ -81,8 +81,8 @@ def check(tier, seed):
         hn, hbad = height_check(r["trace"], hs) if out.startswith("ok") else (0, None)
         err = r["err"]
         kind = vm_corr.impl_outcome(r)["kind"]
-        # side conditions of `verify_sound_partial` (StepOk: arity of the function value at CALL, frame words of live records not
-        # overwritten, MK_INIT_ARRAY finds the recorded constants), checked by the model on every replayed step of this run
+        # side conditions of `verify_sound_partial` (StepOk: arity of the function value at CALL, free cell at INT; plus the proved
+        # conditions re-validated: frame words of live records, MK_INIT_ARRAY extents), checked by the model on every replayed step
         side = None
         if out.startswith("ok") and replay_side(j) and kind.startswith(("return", "exit")):
             try:
@@ -112,7 +112,7 @@ def check(tier, seed):
                 if side_fail_progs <= 3:
                     src = j.get("src") or open(j["file"]).read()
                     rep.violation("c07_side_%s" % j["name"],
-                        "# a side condition of C07's soundness theorem (Props/C07 verify_sound_partial: StepOk) fails on this run of a verified module:\n# %s\n# (a CALL found a function value of another arity / a word of a live frame record was overwritten / MK_INIT_ARRAY extents are not the recorded constants)\n%s" % (side, src), True)
+                        "# a side condition of C07's soundness theorem (Props/C07 verify_sound_partial: StepOk) fails on this run of a verified module:\n# %s\n# (a CALL found a function value of another arity than its call site passes / the allocator handed an INT a cell in use / — proved conditions re-validated: a word of a live frame record was overwritten / MK_INIT_ARRAY extents are not the recorded constants)\n%s" % (side, src), True)
         if out == "nodump" or out == "":
             stats["not-compiled"] += 1
             if kind.startswith(("sanitizer", "signal", "assert", "crash")):
@@ -145,7 +145,7 @@ def check(tier, seed):
     rep.cov.update(side_condition_steps_checked=side_steps, side_condition_programs=side_progs, side_condition_failing_programs=side_fail_progs, side_condition_skipped_ffi_call=side_ffi,
                    height_steps_cross_checked=hsteps, height_mismatch_programs=hbads, programs=stats["ok"] + stats["FAIL"], disagreements_checked=stats["FAIL"],
                    samples=samples, statuses=stats, totals=agg,
-                   trusted_base=["Lean definition of `verify` (Model/Verify.lean) + its compiled driver", "side conditions of verify_sound_partial (StepOk) are CHECKED on the replayed runs (stepOkB), not proved: arity of function values at CALL, frame words of live records not overwritten, MK_INIT_ARRAY constants", "module dump of h_vm.c (public structs) and the NEVER_VERIF function-table hook",
+                   trusted_base=["Lean definition of `verify` (Model/Verify.lean) + its compiled driver", "the two typing side conditions of verify_sound_partial (StepOk: arity of the function value at a CALL = callArgs of the site; the allocator hands an INT a free cell) are CHECKED on the replayed runs (stepOkB), not proved; stepOkB also re-validates the proved ones (frame words of live records, MK_INIT_ARRAY extents)", "module dump of h_vm.c (public structs) and the NEVER_VERIF function-table hook",
                                  "M-VM stack effects tied by lockstep traces (C01)"],
                    explanation="every module the real compiler emits for the samples, the seeded families and the C06 corpus is checked by the Lean verifier: jump targets follow a LABEL in the same function, function values point at function entries, string/build-in references exist, no placeholder, stack heights are a function of the address (joins agree), every instruction finds its operands, frame-relative addressing stays inside the function's own frame, every function returns with exactly its result, tail calls slide exactly (n+L, n+1), exception table and handler entries canonical")
     rep.assumptions = ["translation validation per emitted module: nothing is claimed about programs that were not compiled in this run",
